@@ -464,8 +464,8 @@ theorem lex_total (cs : List Char) (k : Nat) :
 /-! ## Where the full statements fail
 
 Three statements one would like to have are false of the model (and of the Rust code it was
-validated against). Each is kept as a `def …_full : Prop` and refuted by a closed witness; the
-theorems above are the corresponding partial versions, with the weakest side condition found. -/
+validated against). Each is kept as a `def …_full : Prop` and refuted by a closed witness; what
+is proved above are the corresponding partial versions, with the weakest side condition found. -/
 
 /-- FULL layout invariance, treating `,` like the other punctuation tokens (it ends by itself,
 whatever follows). -/
